@@ -42,7 +42,7 @@ Proof.
   eapply InvL_step; eauto.
 Qed.
 
-Lemma run_Inv P lru cids acts : 2 * ptotal P < two64 -> 3 * byz_power P cids < ptotal P ->
+Lemma run_Inv P lru cids acts : ptotal P < two64 -> 3 * byz_power P cids < ptotal P ->
   forall n, Inv P lru cids n -> run_ok P lru n acts -> Inv P lru cids (run P lru n acts).
 Proof.
   intros Hw Hb. induction acts as [|a acts IH]; intros n HI Hok; simpl; [exact HI|]. destruct Hok as [Ha Hok].
@@ -93,7 +93,7 @@ Qed.
 Theorem agreement powers lru (correct : list (N * N)) acts :
   NoDup (map fst correct) ->
   Forall (fun e => fst e < N.of_nat (length powers)) correct ->
-  2 * total powers < two64 ->                                        (* the threshold expression does not wrap *)
+  total powers < two64 ->                                        (* the threshold expression does not wrap *)
   3 * byz_power powers (map fst correct) < total powers ->           (* Byzantine validators hold less than 1/3 *)
   run_ok powers lru (init_net correct) acts ->
   forall i j v1 v2, In (i, v1) (commits (run powers lru (init_net correct) acts)) ->
